@@ -12,6 +12,7 @@ import (
 	"verif/chk"
 	"verif/hx"
 	"verif/ref"
+	"verif/simmaster"
 )
 
 func init() {
@@ -37,6 +38,9 @@ type HistInput struct {
 	// RejectAt k+1: the handler rejects delivery k; the same Streamer then
 	// streams a second time from the position it kept (0 = single attempt).
 	RejectAt int `json:"reject_at,omitempty"`
+	// CutAt k+1: the connection of the first Stream call is lost in front of
+	// packet k of the dump; the same Streamer then streams a second time.
+	CutAt int `json:"cut_at,omitempty"`
 }
 
 // Insert places a noise unit before event Slot of the base history's first file.
@@ -82,6 +86,9 @@ func checkGrouping(in HistInput) (string, int, int) {
 	}
 	if in.RejectAt > 0 {
 		return checkRejectRetry(in, h, start, exp), len(served), len(exp)
+	}
+	if in.CutAt > 0 {
+		return checkCutRetry(in, h, start, exp, len(served)), len(served), len(exp)
 	}
 	out := Run(h, Opts{Start: start, ServerID: 77, LockStep: in.LockStep && !in.TCP, KeepTx: true, TCP: in.TCP})
 	if out.Hung {
@@ -156,6 +163,34 @@ func checkRejectRetry(in HistInput, h *ref.History, start ref.Position, exp []re
 		if diff := d.Snap.Diff(hx.Snapshot(d.Tx)); diff != "" {
 			return fmt.Sprintf("delivery %d changed after it was delivered (re-read after both attempts): %s", i, diff)
 		}
+	}
+	return ""
+}
+
+// checkCutRetry: the connection is lost in front of packet k (possibly in the
+// middle of a transaction); a second Stream call on the same Streamer must
+// deliver what is left: over both attempts every committed transaction exactly
+// once, in order, with the reference contents and labels.
+func checkCutRetry(in HistInput, h *ref.History, start ref.Position, exp []ref.ExpTx, nserved int) string {
+	k := in.CutAt - 1
+	if k >= nserved {
+		return ""
+	}
+	out := Run(h, Opts{Start: start, ServerID: 77, LockStep: in.LockStep, KeepTx: true, Attempts: 2,
+		Plans: []simmaster.Plan{{At: k, Kind: "fin", Final: "eof"}, {At: -1, Final: "eof"}}})
+	if out.Hung {
+		return "HUNG"
+	}
+	for a, p := range out.StreamPanic {
+		if p != "" {
+			return fmt.Sprintf("panic in Stream (attempt %d): %s", a, p)
+		}
+	}
+	if len(out.StreamErr) == 2 && out.StreamErr[1] != nil {
+		return fmt.Sprintf("connection lost in front of packet %d; the second Stream call of the same Streamer failed on a well-formed binlog: %s", k, clip(out.StreamErr[1].Error(), 200))
+	}
+	if d := hx.CompareAll(exp, out.Snaps()); d != "" {
+		return fmt.Sprintf("connection lost in front of packet %d, second attempt on the same Streamer (every transaction exactly once over both): %s", k, d)
 	}
 	return ""
 }
